@@ -78,24 +78,102 @@ func recvLoops(fn *ssa.Function) []recvOp {
 	return out
 }
 
-// reachableAvoidingEdges: blocks reachable from entry when the given edges are removed.
+// reachableAvoidingEdges: blocks reachable from entry when the given edges are removed. One kind
+// of infeasible path is recognised: a block that tests a variable merged at its own entry against
+// nil (`for .. { if err != nil { werr = err; break } }; if werr != nil {`) is left, for each way
+// of entering it, only through the branch the merged value decides - nil on the one edge, a
+// value known to be non-nil where it was assigned on the other.
 func reachableAvoidingEdges(fn *ssa.Function, cut map[[2]*ssa.BasicBlock]bool) map[*ssa.BasicBlock]bool {
 	seen := map[*ssa.BasicBlock]bool{}
-	var dfs func(b *ssa.BasicBlock)
-	dfs = func(b *ssa.BasicBlock) {
-		if seen[b] {
+	seenEdge := map[[2]*ssa.BasicBlock]bool{}
+	// decided: for entering b from pred, the index of the only feasible successor, or -1
+	decided := func(pred, b *ssa.BasicBlock) int {
+		if pred == nil || len(b.Instrs) == 0 {
+			return -1
+		}
+		iff, ok := b.Instrs[len(b.Instrs)-1].(*ssa.If)
+		if !ok {
+			return -1
+		}
+		c, neg := stripNot(iff.Cond)
+		bo, ok := c.(*ssa.BinOp)
+		if !ok || (bo.Op != token.NEQ && bo.Op != token.EQL) {
+			return -1
+		}
+		isNil := func(v ssa.Value) bool { k, ok := v.(*ssa.Const); return ok && k.IsNil() }
+		var phi *ssa.Phi
+		switch {
+		case isNil(bo.Y):
+			phi, _ = bo.X.(*ssa.Phi)
+		case isNil(bo.X):
+			phi, _ = bo.Y.(*ssa.Phi)
+		}
+		if phi == nil || phi.Block() != b {
+			return -1
+		}
+		// nothing between the merge and the test may have effects that matter here: the block
+		// consists of phis, the comparison and the branch
+		for _, ins := range b.Instrs {
+			switch ins.(type) {
+			case *ssa.Phi, *ssa.BinOp, *ssa.UnOp, *ssa.If, *ssa.DebugRef:
+			default:
+				return -1
+			}
+		}
+		var v ssa.Value
+		for i, p := range b.Preds {
+			if p == pred {
+				v = phi.Edges[i]
+			}
+		}
+		if v == nil {
+			return -1
+		}
+		nonNil, known := false, false
+		if isNil(v) {
+			known = true
+		} else {
+			for _, g := range branchGuards(pred) {
+				if gb, ok := g.cond.(*ssa.BinOp); ok && (gb.Op == token.NEQ || gb.Op == token.EQL) {
+					if (gb.X == v && isNil(gb.Y)) || (gb.Y == v && isNil(gb.X)) {
+						if (gb.Op == token.NEQ) == g.val {
+							nonNil, known = true, true
+						}
+					}
+				}
+			}
+		}
+		if !known {
+			return -1
+		}
+		// the test is true iff (op is != and the value is non-nil) or (op is == and it is nil)
+		truth := (bo.Op == token.NEQ) == nonNil
+		if neg {
+			truth = !truth
+		}
+		if truth {
+			return 0
+		}
+		return 1
+	}
+	var dfs func(pred, b *ssa.BasicBlock)
+	dfs = func(pred, b *ssa.BasicBlock) {
+		e := [2]*ssa.BasicBlock{pred, b}
+		if seenEdge[e] {
 			return
 		}
+		seenEdge[e] = true
 		seen[b] = true
-		for _, s := range b.Succs {
-			if cut[[2]*ssa.BasicBlock{b, s}] {
+		only := decided(pred, b)
+		for i, s := range b.Succs {
+			if cut[[2]*ssa.BasicBlock{b, s}] || (only >= 0 && i != only) {
 				continue
 			}
-			dfs(s)
+			dfs(b, s)
 		}
 	}
 	if len(fn.Blocks) > 0 {
-		dfs(fn.Blocks[0])
+		dfs(nil, fn.Blocks[0])
 	}
 	return seen
 }
